@@ -593,6 +593,88 @@ theorem C06_C_stdout_oneline (t : List Nat) (hp : ∀ x ∈ t, plainB x = true) 
 example : stdoutOut [104, 105, 10] = [104, 105] ∧ specStdout [104, 105, 10] (stdoutOut [104, 105, 10]) = true ∧
     stdoutOut [97, 10, 98, 10] = [97, 10, 98, 10] ∧ specStdout [97, 10, 98, 10] (stdoutOut [97, 10, 98, 10]) = true := by decide
 
+/-! ## the `output` view over a history of reads -/
+namespace HI
+open Capture.Hist
+
+/-- invariant: once ended, the cache (if any) is the formatted text of ALL lines -/
+theorem run_after_end (ops : List Op) : ∀ (c : Option (List Nat)) (ls : List (List Nat)), (c = none ∨ c = some (fmtLines ls)) →
+    ∀ r ∈ run false ⟨true, c, ls⟩ ops, r = (true, fmtLines ls) := by
+  induction ops with
+  | nil => intro c ls _ r hr; simp [run] at hr
+  | cons op ops ih =>
+    intro c ls hc r hr
+    cases op with
+    | deliver l =>
+      simp only [run, step, if_true] at hr
+      exact ih c ls hc r hr
+    | finish =>
+      simp only [run, step] at hr
+      exact ih c ls hc r hr
+    | read =>
+      rcases hc with hc | hc
+      · subst hc
+        simp only [run, step, Bool.false_eq_true, if_false, if_true, List.mem_cons] at hr
+        rcases hr with hr | hr
+        · exact hr
+        · exact ih _ ls (Or.inr rfl) r hr
+      · subst hc
+        simp only [run, step, Bool.false_eq_true, if_false, if_true, List.mem_cons] at hr
+        rcases hr with hr | hr
+        · exact hr
+        · exact ih _ ls (Or.inr rfl) r hr
+
+theorem delivered_true (ops : List Op) : delivered true ops = [] := by
+  induction ops with
+  | nil => rfl
+  | cons o os ih => simpa [delivered] using ih
+
+theorem run_general (ops : List Op) : ∀ (ls : List (List Nat)),
+    ∀ r ∈ run false ⟨false, none, ls⟩ ops, (r.1 = true → r.2 = fmtLines (ls ++ delivered false ops)) ∧
+      (r.1 = false → ∃ k, r.2 = fmtLines (ls ++ (delivered false ops).take k)) := by
+  induction ops with
+  | nil => intro ls r hr; simp [run] at hr
+  | cons op ops ih =>
+    intro ls r hr
+    cases op with
+    | deliver l =>
+      simp only [run, step, Bool.false_eq_true, if_false] at hr
+      have := ih (ls ++ [l]) r hr
+      simp only [delivered, List.append_assoc, List.singleton_append] at this ⊢
+      refine ⟨this.1, fun h => ?_⟩
+      obtain ⟨k, hk⟩ := this.2 h
+      exact ⟨k + 1, by simpa using hk⟩
+    | finish =>
+      simp only [run, step] at hr
+      have h1 := run_after_end ops none ls (Or.inl rfl) r hr
+      simp only [delivered, delivered_true, List.append_nil]
+      subst h1
+      exact ⟨fun _ => rfl, fun h => by simp at h⟩
+    | read =>
+      simp only [run, step, Bool.false_eq_true, if_false, List.mem_cons] at hr
+      rcases hr with hr | hr
+      · subst hr
+        exact ⟨fun h => by simp at h, fun _ => ⟨0, by simp⟩⟩
+      · simpa [delivered] using ih ls r hr
+
+end HI
+
+/-- C06 (history of views): whatever was read before — `.output` right after creation, in the middle of an iteration, any
+number of times — every read AFTER the pipeline has ended (`.out`, `str()`, `==`, `.output`) is the formatted text of ALL the
+lines delivered, and every read BEFORE the end is the formatted text of a prefix of them. -/
+theorem C06_H_reads (ops : List Hist.Op) :
+    ∀ r ∈ Hist.run false Hist.init ops,
+      (r.1 = true → r.2 = fmtLines (Hist.delivered false ops)) ∧
+      (r.1 = false → ∃ k, r.2 = fmtLines ((Hist.delivered false ops).take k)) := by
+  intro r hr
+  simpa [Hist.init] using HI.run_general ops [] r hr
+
+/-- non-vacuity, and what caching an early read would do: `.output` after one of two lines, then `.out` after the end — the
+machine of the code returns both lines, the early-caching variant keeps returning the first -/
+theorem C06_H_cex_stale_cache :
+    Hist.run false Hist.init [.deliver [97, 10], .read, .deliver [98, 10], .finish, .read] = [(false, [97]), (true, [97, 10, 98, 10])] ∧
+    Hist.run true Hist.init [.deliver [97, 10], .read, .deliver [98, 10], .finish, .read] = [(false, [97]), (true, [97])] := by decide
+
 open Capture.Rtn in
 /-- C06 (return code): whatever runs before it, the pipeline's return code is the LAST stage's: the exit status of a process,
 or for a callable alias what `parse_proxy_return` makes of its return value. -/
